@@ -344,7 +344,9 @@ def abs_levy_model(ctx, name, sigma=0.0, a=0.0, representation=None, **measure_k
     if "lm" not in _CLASSES:
         class AbsLevyModel(LevyModel):
             def __repr__(self):
-                return f"AbsLevyModel({self.levy_triplet.nu.name})"
+                nu = self.levy_triplet.nu
+                inner = getattr(nu, "levy_measure", nu)  # a truncated copy wraps the measure; like the library's models, the repr does not show it
+                return f"AbsLevyModel({getattr(inner, 'name', type(inner).__name__)})"
 
             def levy_exponent_pure_jump(self, x):
                 raise Unsupported("abstract model has no closed-form exponent")
